@@ -1,6 +1,12 @@
 //! Correspondence harness: runs cases on the real saveoursecrets/sdk code and prints one
 //! canonical observation line per step.  Usage: harness <prop> <cases-file>
+mod alloc;
 mod c08;
+mod c14;
+mod util;
+
+#[global_allocator]
+static GLOBAL: alloc::Counting = alloc::Counting;
 
 fn main() {
     let args: Vec<String> = std::env::args().collect();
@@ -13,6 +19,8 @@ fn main() {
     let mut out = std::io::BufWriter::new(out.lock());
     match args[1].as_str() {
         "c08" => c08::run(&text, &mut out),
+        "c14gen" => c14::gen(&text, &mut out),
+        "c14" | "c15" => c14::run(&text, &mut out),
         other => {
             eprintln!("unknown property {other}");
             std::process::exit(2);
